@@ -46,7 +46,7 @@ ASSUMPTIONS = [
 RULE = ('one evaluation = one explored path of one history (all modification times consistent with the path); distinct = distinct (history, target, path); '
         'non-trivial = the history contains at least one write or failing read after a load')
 EXPLANATION = 'histories and content versions are enumerated; modification times are z3 integers flowing through the real cache-validity tests'
-BUDGET_S = {'quick': 240, 'thorough': 1200}
+BUDGET_S = {'quick': 240, 'thorough': 900}
 
 FILES = ['va', 'vb', 'vc', 'vd']
 
